@@ -203,8 +203,13 @@ def check_case(ctx, index, case_seed):
 
     # the session's --offset setting lives in the doctest's config; an explicit argument of the call wins over it,
     # no argument means the session's setting
-    for session_offset, given in ((False, False), (False, True), (False, None), (True, False), (True, True), (True, None)):
-        dt.config['offset_linenos'] = session_offset
+    # (the config is set once per session value: what a call is GIVEN must not stay behind for the next call)
+    prev_session = None
+    for session_offset, given in ((False, False), (False, True), (False, None), (True, True), (True, False), (True, None),
+                                  (True, True), (False, None)):
+        if session_offset != prev_session:
+            dt.config['offset_linenos'] = session_offset
+            prev_session = session_offset
         off = session_offset if given is None else given
         t = dt.format_src(linenos=True, colored=False, want=True, prefix=True, offset_linenos=given)
         ctx.event('format_src_calls')
